@@ -64,7 +64,8 @@ def plan(tier, seed):
               lam=(0.0 if app == "sense-consistent" else pick(rng, [0.0, 1e-2, 1.0]))
               if app.startswith("sense") else float(10 ** rng.uniform(-2, -0.5)),
               solver=pick(rng, [None, "ConjugateGradient", "GradientMethod",
-                                "PrimalDualHybridGradient"]) if app.startswith("sense") else
+                                "PrimalDualHybridGradient", "ADMM"]) if app.startswith("sense")
+              else
               pick(rng, [None, "PrimalDualHybridGradient", "ADMM"]),
               batch=pick(rng, [None, None, 1, 2]), w=pick(rng, ["none", "none", "kspace"]),
               oseed=int(rng.integers(1 << 30)))
@@ -260,7 +261,7 @@ def run_recon(case):
             if app == "sense-consistent" and np.linalg.cond(H) > 1e4:
                 return inconclusive("encoding not well determined")
             iters = {None: 300, "ConjugateGradient": 300, "GradientMethod": 2500,
-                     "PrimalDualHybridGradient": 3000}[solver]
+                     "PrimalDualHybridGradient": 3000, "ADMM": 200}[solver]
             xr = mr.app.SenseRecon(ksp, mps, lamda=lam, weights=w, coord=coord, solver=solver,
                                    max_iter=iters, **kw).run()
             xref = np.linalg.solve(H + lam * np.eye(n), Am.conj().T @ yw)
